@@ -21,7 +21,7 @@ import (
 )
 
 var Spec = engine.Spec{
-	ID: "C07", Run: Run, MapOrders: true, MapOrdersQuick: []int{vmap.Alternating}, QuickBud: 6 * time.Minute, ThorBud: 30 * time.Minute,
+	ID: "C07", Run: Run, MapOrders: true, MapOrdersQuick: []int{vmap.Alternating}, QuickBud: 6 * time.Minute, ThorBud: 60 * time.Minute,
 	Technique: "explicit-state search over Document construction histories (deviation-bounded from the all-nil message and from a well-formed base; de-duplicated by snapshot) x 8 serializers, real WriteStreamWithOptions under recover; exhaustive short serialization histories compared with fresh-process reference outputs",
 	Rule:      "state = Document reached by <=d construction steps from a base (steps: set/leave nil metadata and node list, ids empty/duplicate, out-of-range enums, dangling edges and roots, cycles, document types with every subset of optional fields...); key = field-by-field snapshot; case = (state, format, as-built | after proto round trip)",
 	Assume:    []string{"nil elements inside repeated fields are not values of the message type (proto.Marshal rejects them) and are excluded", "outputs compared after removing creation timestamps and sorting every JSON array"},
